@@ -134,7 +134,7 @@ RearrFamily(z) ==
     \cup {R1("diff", "func", s, AxInt(a), n, 0, <<>>, "-") : n \in {1, 2}, a \in AxisInts(Len(s))}
     \cup {R1("gradient", "func", s, NoAx, 0, 0, <<>>, "-")}
     \cup {R1("gradient", "func", s, AxInt(a), 0, 0, <<>>, "axis") : a \in AxisInts(Len(s))}
-    \cup {R1("pad", "func", s, NoAx, w, 0, <<>>, "int") : w \in {1, 2}}
+    \cup {R1("pad", "func", s, NoAx, w, 0, <<>>, st) : w \in {1, 2}, st \in {"int", "cv", "cvpair", "modekw"}}
     \cup {R1("pad", "func", s, NoAx, 0, 0, t, "pair") : t \in {<<1, 2>>, <<0, 1>>}}
     \cup {R1("pad", "func", s, NoAx, 0, 0, t, "pairs") : t \in {<<1, 0, 0, 1, 2, 0>>, <<0, 1, 2, 0, 1, 1>>}}
     \cup {R1(p, "func", s, AxInt(a), sec, pc, <<>>, "-") : p \in {"split", "array_split"}, a \in AxisInts(Len(s)), sec \in {1, 2, 3}, pc \in {0, 1}}
@@ -320,10 +320,11 @@ HelperFamily(z) ==
 \* A harness-registered primitive  user(a, b, shift=0) = A*B + shift  (broadcasting; ib = 1: summed to a scalar) where A = floor(a) when
 \* argument 0 is declared non-differentiable (ia = 1), B = floor(b) when argument 1 is (ia = 2): the declaration `None` is then TRUE, and
 \* what is under test is what the library makes of it - an exact zero in the space of THAT argument (reverse) / of the output (forward).
-\* form = registration API: "defvjp" (positional), "argnums" (defvjp(.., argnums=(1, 0)) and defjvp likewise)
+\* form = registration API: "defvjp" (positional), "argnums" (defvjp(.., argnums=(1, 0)) and defjvp likewise), "deprecated" / "defgrad" (the
+\* pre-1.2 methods prim.defvjp(vjpmaker(g, ans, vs, gvs, *args), argnum) / prim.defgrad / prim.defvjp_is_zero, still exported)
 ExtendFamily(z) ==
   {Cfg("userprod", api, t[1], t[2], <<>>, n, NoAx, FALSE, tbl, red, <<>>, "-", "rr", "array", NA) :
-      api \in {"defvjp", "argnums"}, n \in {0, 1}, tbl \in 0..2, red \in {0, 1},
+      api \in {"defvjp", "argnums", "deprecated", "defgrad"}, n \in {0, 1}, tbl \in 0..2, red \in {0, 1},
       t \in {tt \in (Shapes(2) \cup {<<2, 1, 3>>}) \X (Shapes(2) \cup {<<2, 1, 3>>}) : BroadcastOK(tt[1], tt[2])}}
 
 \* ---------------------------------------------------------------- smooth functions at special points (C01 / C02: "for every input")
